@@ -75,7 +75,7 @@ _ASSUME = ['pending pool disabled (max_pending_pool_size_percentage = 0): missin
 
 def _spec(pid, tag, theorems, partial=None, level='proof'):
     return dict(id=pid, cluster='Pool', crate='h-pool', tag=tag,
-                n={'quick': 500, 'thorough': 12000},
+                n={'quick': 1500, 'thorough': 20000},
                 theorems=theorems, classify=_classes, rule=_RULE,
                 assumptions=_ASSUME + ([partial] if partial else []),
                 profiles=['dev'], level=level, shard=250, workers=16)
